@@ -325,7 +325,7 @@ fn verif_native_c13_conventions() {
 }
 
 
-//@n {"id":"C07.N.molodensky","props":["C07","C14"],"tier":"quick","bound":"molodensky (full and abridged) vs `cart ellps=WGS84 | helmert x y z | cart inv ellps=intl` on a 13x13 lattice (|lat| <= 75) x heights {0, 100, 1000, 4000, 10000} m x 2 translation sets, both directions","text":"molodensky agrees with the cartesian three-parameter Helmert path it approximates to within the accuracy of a first-order method: 1 cm + 1.5 shift^2/R for the full formulas at all heights up to 10 km, plus 2.5 shift h/R for the abridged ones (which neglect the height)"}
+//@n {"id":"C07.N.molodensky","props":["C07","C14"],"tier":"quick","bound":"molodensky (full and abridged) vs `cart ellps=WGS84 | helmert x y z | cart inv ellps=intl` on a 13x13 lattice (|lat| <= 75) x heights {0, 100, 1000, 4000, 10000} m x 2 translation sets, both directions","text":"molodensky agrees with the cartesian three-parameter Helmert path it approximates to within the accuracy of a first-order method: 1 cm + 1.5 shift^2/R for the full formulas at all heights up to 10 km, plus 0.002 shift + 2.5 shift h/R for the abridged ones (which drop the flattening-order and height terms)"}
 #[test]
 fn verif_native_c07_molodensky() {
     let mut ctx = Minimal::default();
@@ -351,7 +351,7 @@ fn verif_native_c07_molodensky() {
                             let vert = (a[0][2] - b[0][2]).abs();
                             // first-order method: truncation error ~ shift^2 / R; the abridged formulas additionally neglect h: ~ shift * h / R
                             let shift = f64::sqrt(dx * dx + dy * dy + dz * dz);
-                            let tol = 0.01 + 1.5 * shift * shift / 6.4e6 + if abridged { 2.5 * shift * h / 6.4e6 } else { 0.0 };
+                            let tol = 0.01 + 1.5 * shift * shift / 6.4e6 + if abridged { 0.002 * shift + 2.5 * shift * h / 6.4e6 } else { 0.0 };
                             let e = plane.max(vert) - tol;
                             if e > worst.0 {
                                 worst = (e, format!("lat {:.1} lon {:.1} h {h}: plane {plane:.4} m, height {vert:.4} m (tolerance {tol:.3})", lat.to_degrees(), lon.to_degrees()));
